@@ -8,6 +8,7 @@ import H2V.Lemmas.ConnResetPStreams
 -/
 namespace H2V.Lemmas.ConnResetP
 open H2V H2V.Model H2V.Model.Conn
+variable {D : Nat → Prop}
 
 /-- the operations on `Streams` -/
 inductive Op where
@@ -106,19 +107,27 @@ def run (s : Streams) (ops : List Op) : Streams := ops.foldl Op.apply s
 set_option allowUnsafeReducibility true in
 attribute [local reducible] Streams.stream Store.getD'
 
-theorem Op.apply_evolves {a : Store} {s : Streams} (h : Evolves SRel RInv a s.store) (op : Op) :
-    Evolves SRel RInv a (op.apply s).store := by
-  cases op <;> unfold Op.apply <;> ev
+theorem Op.apply_evolves {a : Store} {s : Streams} (h : Evolves (SRel D) RInv a s.store) (op : Op)
+    (hD : ∀ k, op = .dropStreamRef k → D k) : Evolves (SRel D) RInv a (op.apply s).store := by
+  cases op
+  case dropStreamRef k => exact dropStreamRef_sr h k (hD k rfl)
+  all_goals (unfold Op.apply; ev)
 
-theorem run_evolves' {a : Store} (ops : List Op) {s : Streams} (h : Evolves SRel RInv a s.store) :
-    Evolves SRel RInv a (run s ops).store := by
+theorem run_evolves' {a : Store} (ops : List Op) {s : Streams} (h : Evolves (SRel D) RInv a s.store)
+    (hD : ∀ op ∈ ops, ∀ k, op = .dropStreamRef k → D k) : Evolves (SRel D) RInv a (run s ops).store := by
   induction ops generalizing s with
   | nil => exact h
-  | cons op ops ih => exact ih (Op.apply_evolves h op)
+  | cons op ops ih =>
+    exact ih (Op.apply_evolves h op (hD op (List.mem_cons_self ..))) (fun o ho => hD o (List.mem_cons_of_mem _ ho))
 
 /-- **every history**: the final slab relates to the initial one by `SRel` -/
-theorem run_evolves (s : Streams) (ops : List Op) : Evolves SRel RInv s.store (run s ops).store :=
-  run_evolves' ops (Evolves.refl _)
+theorem run_evolves (s : Streams) (ops : List Op) : Evolves SRelAny RInv s.store (run s ops).store :=
+  run_evolves' ops (Evolves.refl _) (fun _ _ _ _ => trivial)
+
+/-- a history in which no handle of entry `k` is dropped -/
+theorem run_evolves_keep (s : Streams) (ops : List Op) (k : Nat) (hk : Op.dropStreamRef k ∉ ops) :
+    Evolves (SRel (· ≠ k)) RInv s.store (run s ops).store :=
+  run_evolves' ops (Evolves.refl _) (fun op ho k' e hkk => hk (by rw [← hkk, ← e]; exact ho))
 
 /-- the reset invariant holds in every state reachable from a state in which it holds -/
 theorem run_rinv (s : Streams) (ops : List Op) (h : AllStreams RInv s.store) : AllStreams RInv (run s ops).store :=
@@ -136,8 +145,23 @@ theorem run_keysBelow (s : Streams) (ops : List Op) (h : KeysBelow s.store) : Ke
 
 /-- the entry a key names at two moments of a history: the later one evolved from the earlier one -/
 theorem run_srel (s : Streams) (ops : List Op) (hk : KeysBelow s.store) {k : Nat} {st st' : Stream}
-    (h0 : s.store.get? k = some st) (h1 : (run s ops).store.get? k = some st') : SRel st st' := by
+    (h0 : s.store.get? k = some st) (h1 : (run s ops).store.get? k = some st') : SRelAny st st' := by
   obtain ⟨st0, hg, p⟩ := (run_evolves s ops).same_key h1 (hk k st h0)
   rw [h0] at hg; cases hg; exact p
+
+
+/-- **a stream is never released while a handle is alive**: along a history that does not drop a handle
+    of entry `k`, an entry with `ref_count > 0` stays in the slab and its `ref_count` does not go down -/
+theorem run_keeps_referenced (s : Streams) (ops : List Op) (k : Nat) (st : Stream) (hkb : KeysBelow s.store)
+    (h0 : s.store.get? k = some st) (hr : 0 < st.refCount) (hk : Op.dropStreamRef k ∉ ops) :
+    ∃ st', (run s ops).store.get? k = some st' ∧ st.refCount ≤ st'.refCount ∧ st'.id = st.id := by
+  have e := run_evolves_keep s ops k hk
+  have hkey : st.key = k := Store.get?_key h0
+  rcases e.fwd k st h0 (hkb k st h0) with ⟨st', h', r⟩ | ⟨st'', r, d⟩
+  · exact ⟨st', h', r.refs (by rw [hkey]; exact fun h => h rfl), r.id⟩
+  · exfalso
+    have := r.refs (by rw [hkey]; exact fun h => h rfl)
+    rw [d.2] at this
+    omega
 
 end H2V.Lemmas.ConnResetP
